@@ -155,10 +155,45 @@ theorem countLeaves_root (i : Info) (cs : List Node) (hne : groupsNonEmpty (.gro
   simp only [countLeaves] at a
   simp [countLeaves, flatten, leaves, hnz, a]
 
+mutual
+  theorem elemsOk_node : ∀ c : Node, typed c = true → groupsNonEmpty c = true → ∀ (i : Nat) (rest : List Element),
+      elemsOk i (flatten c ++ rest) = elemsOk (i + (flatten c).length) rest
+    | .leaf inf, ht, _, i, rest => by
+      simp only [typed] at ht
+      simp [flatten, elemsOk, elemOk, ht]
+    | .group inf cs, ht, hne, i, rest => by
+      simp only [typed, Bool.and_eq_true] at ht
+      simp only [groupsNonEmpty, Bool.and_eq_true, Bool.not_eq_eq_eq_not, Bool.not_true] at hne
+      have hcs : cs ≠ [] := by intro h0; simp [h0] at hne
+      have hnz : ((cs.length : Int) == 0) = false := by simpa using hcs
+      have hnn : ¬ ((cs.length : Int) < 0) := by omega
+      have hnone : inf.ptype.isSome = false := by
+        cases hp : inf.ptype <;> simp_all
+      have := elemsOk_list cs ht.2 hne.2 (i + 1) rest
+      simp only [flatten, List.cons_append, elemsOk, elemOk, hnz, hnone, hnn, List.length_cons] at this ⊢
+      simp [this]; congr 1; omega
+  theorem elemsOk_list : ∀ cs : List Node, typedList cs = true → groupsNonEmptyList cs = true →
+      ∀ (i : Nat) (rest : List Element),
+      elemsOk i (flattenList cs ++ rest) = elemsOk (i + (flattenList cs).length) rest
+    | [], _, _, i, rest => by simp [flattenList]
+    | c :: cs, ht, hne, i, rest => by
+      simp only [typedList, Bool.and_eq_true] at ht
+      simp only [groupsNonEmptyList, Bool.and_eq_true] at hne
+      have h1 := elemsOk_node c ht.1 hne.1 i (flattenList cs ++ rest)
+      have h2 := elemsOk_list cs ht.2 hne.2 (i + (flatten c).length) rest
+      simp only [flattenList, List.append_assoc, List.length_append]
+      rw [h1, h2]; congr 1; omega
+end
+
 /-- Main lemma: on the depth-first list of a tree (root a non-empty group, every inner group
-non-empty) `build_schema` yields exactly the leaves and levels of the format's rule. -/
-theorem build_flatten (i : Info) (cs : List Node) (hne : groupsNonEmpty (.group i cs) = true) :
+non-empty, groups untyped and leaves typed) `build_schema` yields exactly the leaves and levels
+of the format's rule. -/
+theorem build_flatten (i : Info) (cs : List Node) (hne : groupsNonEmpty (.group i cs) = true)
+    (hty : typed (.group i cs) = true) :
     build (flatten (.group i cs)) = some (leaves (.group i cs)) := by
+  have hok : elemsOk 0 (flatten (.group i cs)) = true := by
+    have := elemsOk_node (.group i cs) hty hne 0 []
+    simpa [elemsOk] using this
   have hne' := hne
   simp only [groupsNonEmpty, Bool.and_eq_true, Bool.not_eq_eq_eq_not, Bool.not_true] at hne'
   have hcs : cs ≠ [] := by intro h0; simp [h0] at hne'
@@ -187,7 +222,7 @@ theorem build_flatten (i : Info) (cs : List Node) (hne : groupsNonEmpty (.group 
   simp only [List.length_singleton, List.nil_append] at hs
   have hnot : ¬ (flatten (.group i cs)).length ≤ 1 := by omega
   unfold build
-  rw [if_neg (by omega)]
+  rw [if_neg (by simp [hok]), if_neg (by omega)]
   unfold buildLeaves
   simp only [hnot, if_false]
   have hfl : flatten (.group i cs) = (⟨i, cs.length⟩ : Element) :: flattenList cs := by simp [flatten]
